@@ -346,20 +346,26 @@ pub fn def(ctx: &Ctx) -> PropDef {
     }
     // a stuck timer for a very long time that then recovers: retry counters of any width up to
     // 2^16 wrap (70 000 consecutive stuck measurements = 210 000 equal readings)
-    subs.push(PSub::boxed(
+    // every stuck length x both kinds, enumerated: a timer that stands still (or ticks perfectly
+    // evenly) for 900 / 2 400 / 15 000 / 210 000 readings inside one collection and then recovers
+    subs.push(crate::engine::ESub::boxed(
         "jitter/long-stuck",
-        t.pick(3, 12),
-        || {
-            (1u64..=1_000_000, prop_oneof![Just(300usize), Just(800usize), Just(70_000usize)], 1u8..=3, any::<u64>(), any::<bool>())
-                .prop_map(|(start, stuck, rounds, salt, zero)| JitCase {
-                    prog: TimerProg { start, segs: vec![gens::Seg::Jitter { n: 9, lo: 50, spread: 40 }, if zero { gens::Seg::Zero { n: 3 * stuck } } else { gens::Seg::Equal { n: 3 * stuck, d: 7 } }], salt },
-                    rounds0: Some(rounds),
-                    ops: vec![JOp::U64, JOp::U32, JOp::U64],
-                    clone_at: None,
-                    first_result: None,
-                    start_pool: None,
-                })
-                .boxed()
+        8,
+        move || {
+            let mut v = Vec::new();
+            for (k, stuck) in [300usize, 800, 5_000, 70_000].into_iter().enumerate() {
+                for zero in [false, true] {
+                    v.push(JitCase {
+                        prog: TimerProg { start: 1_000 + k as u64, segs: vec![gens::Seg::Jitter { n: 9, lo: 50, spread: 40 }, if zero { gens::Seg::Zero { n: 3 * stuck } } else { gens::Seg::Equal { n: 3 * stuck, d: 7 } }], salt: 11 + k as u64 },
+                        rounds0: Some(1 + (k % 3) as u8),
+                        ops: vec![JOp::U64, JOp::U32, JOp::U64],
+                        clone_at: None,
+                        first_result: None,
+                        start_pool: None,
+                    });
+                }
+            }
+            v
         },
         check_jit,
     ));
